@@ -2037,6 +2037,212 @@ fn probes() {
     });
 }
 
+
+// -------------------------------------------------------------------------------------------
+// malformed-install stream: `FastOps::new_from_ops(nvars, list)` with positions that are NOT
+// strictly increasing must be rejected (the `assert!` in clear_and_install_ops panics); the model
+// answers `panic` for exactly those lists. Well-formed lists (sorted, gaps, empty, single) are
+// controls. Line: `installx <tag> <nvars> <p@op+p@op… in LIST order | -> q=…`.
+// -------------------------------------------------------------------------------------------
+
+fn strictly_increasing(ps: &[usize]) -> bool {
+    ps.windows(2).all(|w| w[0] < w[1])
+}
+
+fn installx_small_op(g: &mut SplitMix64, nvars: usize) -> OpS {
+    let k = (1 + g.below(3) as usize).min(nvars);
+    let pool: Vec<usize> = (0..nvars).collect();
+    let vars = rand_vars(g, &pool, k);
+    let ins = rand_bits(g, k);
+    let diag = g.coin();
+    let outs = if diag { ins.clone() } else { rand_bits(g, k) };
+    OpS { bond: g.below(6) as usize, vars, ins, outs, diag, constant: g.chance(1, 3) }
+}
+
+/// one installx case (+ optionally a following set_cutoff line when the list was accepted);
+/// returns (lines emitted, failed)
+fn installx_case(g: &mut SplitMix64, idx: usize, nvars: usize, ps: Vec<usize>, shape: &str, st: &mut Stats) -> (usize, bool) {
+    let l: Vec<(usize, OpS)> = ps.iter().map(|p| (*p, installx_small_op(g, nvars))).collect();
+    let wellformed = strictly_increasing(&ps);
+    *st.entry(format!("installx_{}", shape)).or_insert(0) += 1;
+    let lst = if l.is_empty() { "-".to_string() } else { l.iter().map(|(p, o)| format!("{}@{}", p, o.show())).collect::<Vec<_>>().join("+") };
+    let len = ps.iter().map(|p| p + 1).max().unwrap_or(0);
+    let qs = pick_queries(g, len);
+    let tag = format!("x{}.0.{:016x}", idx, fnv(&lst));
+    let input = format!("installx {} {} {} q={}", tag, nvars, lst, list(&qs));
+    let built = catch(|| FastOps::new_from_ops(nvars, l.iter().map(|(p, o)| (*p, o.to_op()))));
+    drain_pool_log();
+    match built {
+        Err(msg) => {
+            // rejected
+            if wellformed {
+                emit(!l.is_empty(), &input, "panic", Some(Err(format!("C11 new_from_ops panicked on a well-formed list {:?}: {}", ps, msg))));
+                (1, true)
+            } else {
+                *st.entry("installx_rejected".into()).or_insert(0) += 1;
+                emit(true, &input, "panic", Some(Ok(())));
+                (1, false)
+            }
+        }
+        Ok(mut c) => {
+            let observed = catch(|| {
+                let o = observe(&mut c, &qs);
+                let s = scan(&c);
+                (o, s)
+            });
+            drain_pool_log();
+            if !wellformed {
+                // accepted although the positions are not strictly increasing: run the getters-vs-scan oracle
+                let detail = match &observed {
+                    Ok((o, s)) => match oracle(o, s, nvars, Some(None), None) {
+                        Err(e) => e,
+                        Ok(()) => format!("get_n {} vs scan {} (container otherwise self-consistent, but the list must be rejected)", o.g_n, s.iter().filter(|x| x.is_some()).count()),
+                    },
+                    Err(p) => format!("getters panicked on the result: {}", p),
+                };
+                let out = match &observed {
+                    Ok((o, _)) => format_obs(o),
+                    Err(_) => "PANIC".to_string(),
+                };
+                emit(true, &input, &out, Some(Err(format!("C11 new_from_ops accepted positions {:?} : {}", ps, detail))));
+                return (1, true);
+            }
+            // well-formed control: full oracle against the naive slot array
+            let mut nv = Naive { nvars, nb: None, slots: vec![None; len] };
+            for (p, o) in &l {
+                nv.slots[*p] = Some(o.clone());
+            }
+            let (o, s) = match observed {
+                Ok(x) => x,
+                Err(p) => {
+                    emit(!l.is_empty(), &input, "PANIC", Some(Err(format!("getters panicked after a well-formed install: {}", p))));
+                    return (1, true);
+                }
+            };
+            let r = oracle(&o, &s, nvars, Some(None), Some(&nv));
+            *st.entry("installx_accepted".into()).or_insert(0) += 1;
+            let failed = r.is_err();
+            emit(!l.is_empty(), &input, &format_obs(&o), Some(r));
+            if failed {
+                return (1, true);
+            }
+            // follow-up: set_cutoff below / at / above the largest installed position (never shrinks)
+            let k = match g.below(3) {
+                0 => g.below(len as u64 + 1) as usize,
+                1 => len,
+                _ => len + 1 + g.below(5) as usize,
+            };
+            let m = Mut::Cutoff(k);
+            nv.apply(&m, None);
+            let qs2 = pick_queries(g, nv.len());
+            let tag2 = format!("x{}.1.{:016x}", idx, fnv(&o.slots_str));
+            let input2 = m.line(&tag2, &qs2);
+            let mut cc = Some(c);
+            let (obs, r2) = step_real(&mut cc, &m, &nv, &qs2);
+            *st.entry(if k < len { "installx_then_cutoff_below_maxp" } else { "installx_then_cutoff_ge_len" }.to_string()).or_insert(0) += 1;
+            match (obs, r2) {
+                (Some(o2), r2) => {
+                    let f = r2.is_err();
+                    emit(nv.n_occ() > 0, &input2, &format_obs(&o2), Some(r2));
+                    (2, f)
+                }
+                (None, r2) => {
+                    emit(nv.n_occ() > 0, &input2, "PANIC", Some(r2));
+                    (2, true)
+                }
+            }
+        }
+    }
+}
+
+fn installx_stream(g: &mut SplitMix64, thorough: bool, st: &mut Stats) -> (usize, usize) {
+    let mut acc = (0usize, 0usize, 0usize); // (lines, failing, idx)
+    fn run(acc: &mut (usize, usize, usize), g: &mut SplitMix64, nvars: usize, ps: Vec<usize>, shape: &str, st: &mut Stats) {
+        let (l, f) = installx_case(g, acc.2, nvars, ps, shape, st);
+        acc.2 += 1;
+        acc.0 += l;
+        if f {
+            acc.1 += 1;
+        }
+    }
+    // fixed shapes named in the property discussion
+    run(&mut acc, g, 3, vec![3, 1], "descending", st);
+    run(&mut acc, g, 3, vec![1, 1], "duplicate", st);
+    run(&mut acc, g, 4, vec![0, 2, 5, 4, 7, 9], "one_inversion_inside", st);
+    run(&mut acc, g, 4, vec![0, 2, 5, 7, 7], "equal_adjacent_at_end", st);
+    run(&mut acc, g, 3, vec![], "empty", st);
+    run(&mut acc, g, 3, vec![4], "single", st);
+    run(&mut acc, g, 3, vec![0, 1, 2, 3], "sorted_dense", st);
+    run(&mut acc, g, 3, vec![2, 9, 30], "sorted_gaps", st);
+    let n = if thorough { 1500 } else { 150 };
+    for _ in 0..n {
+        if acc.1 >= 3 {
+            break;
+        }
+        let nvars = 1 + g.below(6) as usize;
+        let cap = if thorough && g.chance(1, 10) { 200 } else { 40 };
+        let kmax = if g.chance(1, 4) { 30 } else { 8 };
+        let k = 1 + g.below(kmax) as usize;
+        // a sorted list with gaps …
+        let mut ps: Vec<usize> = vec![];
+        let mut p = g.below(4) as usize;
+        for _ in 0..k {
+            if p >= cap {
+                break;
+            }
+            ps.push(p);
+            let step = if g.chance(1, 3) { 10 } else { 3 };
+            p += 1 + g.below(step) as usize;
+        }
+        let shape = match g.below(8) {
+            0 | 1 => "sorted_random",
+            2 if ps.len() >= 2 => {
+                ps.reverse();
+                "descending_random"
+            }
+            3 if ps.len() >= 2 => {
+                // one inversion at a random depth (swap two neighbours)
+                let i = g.below(ps.len() as u64 - 1) as usize;
+                ps.swap(i, i + 1);
+                "one_inversion_random"
+            }
+            4 if !ps.is_empty() => {
+                // duplicate a random element next to itself
+                let i = g.below(ps.len() as u64) as usize;
+                let v = ps[i];
+                ps.insert(i, v);
+                "duplicate_random"
+            }
+            5 if !ps.is_empty() => {
+                let v = *ps.last().unwrap();
+                ps.push(v);
+                "equal_adjacent_at_end_random"
+            }
+            6 if ps.len() >= 3 => {
+                // a far element moved to the front / an early one to the back
+                if g.coin() {
+                    let v = ps.pop().unwrap();
+                    ps.insert(0, v);
+                } else {
+                    let v = ps.remove(0);
+                    ps.push(v);
+                }
+                "rotated_random"
+            }
+            7 if ps.len() >= 2 => {
+                // duplicate of an EARLIER position deep inside (non-adjacent)
+                let i = g.below(ps.len() as u64 - 1) as usize;
+                let v = ps[i];
+                ps.push(v);
+                "late_duplicate_random"
+            }
+            _ => "sorted_random",
+        };
+        run(&mut acc, g, nvars, ps, shape, st);
+    }
+    (acc.0, acc.1)
+}
+
 fn main() {
     quiet_panics();
     let a = args();
@@ -2062,6 +2268,11 @@ fn main() {
             failing += 1;
         }
         hidx += 1;
+    }
+    if failing < 3 {
+        let (l, f) = installx_stream(&mut g, a.thorough, &mut st);
+        total += l;
+        failing += f;
     }
     probes();
     for (k, v) in &st {
